@@ -24,7 +24,7 @@
 use crate::error::{ReductionError, Result};
 #[cfg(not(feature = "blas"))]
 use linfa_linalg::{lobpcg::TruncatedSvd, Order};
-use ndarray::{Array1, Array2, ArrayBase, Axis, Data, Ix2};
+use ndarray::{s, Array1, Array2, ArrayBase, Axis, Data, Ix2};
 #[cfg(feature = "blas")]
 use ndarray_linalg::{TruncatedOrder, TruncatedSvd};
 use rand::{prelude::SmallRng, SeedableRng};
@@ -89,15 +89,34 @@ impl<T, D: Data<Elem = f64>> Fit<ArrayBase<D, Ix2>, T, ReductionError> for PcaPa
         let mean = x.mean_axis(Axis(0)).unwrap();
         let x = x - &mean;
 
+        // LOBPCG iterates on a trial basis of three blocks of `embedding_size` vectors; it breaks down (wrong
+        // components, NaN panics) unless the block is small against the dimension of the problem. Otherwise
+        // decompose over the full space, where the first Rayleigh-Ritz step is already exact, and truncate.
+        let dim = usize::min(dataset.nsamples(), dataset.nfeatures());
+        let nvecs = if 5 * self.embedding_size > dim {
+            dim
+        } else {
+            self.embedding_size
+        };
+        // the solver's stopping tolerance is absolute: below the round-off level of large data it would keep
+        // iterating on noise, so it is given relative to the scale of the data
+        let scale = x.iter().map(|v| v * v).sum::<f64>().sqrt().max(1.0);
+        let precision = (1e-5 * scale) as f32;
+
         // estimate Singular Value Decomposition
         #[cfg(feature = "blas")]
-        let result =
-            TruncatedSvd::new(x, TruncatedOrder::Largest).decompose(self.embedding_size)?;
+        let result = TruncatedSvd::new(x, TruncatedOrder::Largest)
+            .precision(precision)
+            .decompose(nvecs)?;
         #[cfg(not(feature = "blas"))]
         let result = TruncatedSvd::new_with_rng(x, Order::Largest, SmallRng::seed_from_u64(42))
-            .decompose(self.embedding_size)?;
+            .precision(precision)
+            .decompose(nvecs)?;
         // explained variance is the spectral distribution of the eigenvalues
-        let (_, sigma, mut v_t) = result.values_vectors();
+        let (_, sigma, v_t) = result.values_vectors();
+        let keep = usize::min(sigma.len(), self.embedding_size);
+        let sigma = sigma.slice_move(s![..keep]);
+        let mut v_t = v_t.slice_move(s![..keep, ..]);
 
         // cut singular values to avoid numerical problems
         let sigma = sigma.mapv(|x| x.max(1e-8));
